@@ -864,8 +864,15 @@ impl<'c, 'd> Gen<'c, 'd> {
     fn comb(&mut self, depth: usize, arr: bool) -> MExpr {
         let op = *self.ch.pick(&LOp::ALL);
         let n = self.ch.weighted(&[5, 3, 1]) + 2;
-        let mut items = Vec::new();
+        let mut items: Vec<MExpr> = Vec::new();
         for _ in 0..n {
+            // now and then an operand is written twice (the previous one, or an earlier one)
+            if !items.is_empty() && self.ch.chance(1, 6) {
+                let k = if self.ch.chance(2, 3) { items.len() - 1 } else { self.ch.draw(items.len()) };
+                let again: MExpr = items[k].clone();
+                items.push(again);
+                continue;
+            }
             let it = if arr { self.gen_arr(depth - 1) } else { self.gen_bool(depth - 1) };
             items.push(self.wrap_item(op, it));
         }
@@ -876,12 +883,17 @@ impl<'c, 'd> Gen<'c, 'd> {
     /// parentheses, built as the tree that precedence climbing must produce.
     fn chain(&mut self, arr: bool) -> MExpr {
         let n = self.ch.range(3, 6);
-        let mut operands: Vec<MExpr> = (0..n)
-            .map(|_| {
-                let leaf = if arr { self.gen_arr(0) } else { self.gen_bool(0) };
-                if self.ch.chance(1, 5) { MExpr::Not(Box::new(leaf)) } else { leaf }
-            })
-            .collect();
+        let mut operands: Vec<MExpr> = Vec::new();
+        for _ in 0..n {
+            if !operands.is_empty() && self.ch.chance(1, 6) {
+                let k = if self.ch.chance(2, 3) { operands.len() - 1 } else { self.ch.draw(operands.len()) };
+                let again: MExpr = operands[k].clone();
+                operands.push(again);
+                continue;
+            }
+            let leaf = if arr { self.gen_arr(0) } else { self.gen_bool(0) };
+            operands.push(if self.ch.chance(1, 5) { MExpr::Not(Box::new(leaf)) } else { leaf });
+        }
         let mut ops: Vec<LOp> = (0..n - 1).map(|_| *self.ch.pick(&LOp::ALL)).collect();
         // reduce by precedence: and first, then xor, then or; equal operators
         // in a row flatten into one node
